@@ -454,6 +454,8 @@ fn one_history(ctx: &WorkerCtx, rep: &mut WorkerReport, case_seed: u64, blocks: 
     let (net, _) = net_for_shard(ctx.shard);
     let mut rng = crate::rng::Rng::new(case_seed);
     let mut w = World::new(case_seed, rpc::chain_id_for(net));
+    let scale = scale_world(&mut w, case_seed, false, false);
+    rep.set_add("scale_profiles", scale);
     w.profile.max_txs_per_block = 8;
     w.profile.p_empty_block = 12;
     w.profile.p_future_nonce = 35;
